@@ -469,9 +469,12 @@ class ExprBuilder(ast.NodeTransformer):
     def visit_UnaryOp(self, node: ast.UnaryOp) -> ast.AST:
         # Desugar negated numeric constants into constants
         match node.op, node.operand:
-            case ast.USub(), ast.Constant(value=float(v) | int(v)) as const:
-                const.value = -v
-                return with_loc(node, const)
+            case ast.USub(), ast.Constant(value=float(v) | int(v)):
+                # Build a fresh constant instead of negating the literal in place: the
+                # operand node can be visited again (the middle operand of a chained
+                # comparison is shared by both generated comparisons), and a second
+                # in-place negation would flip the sign back
+                return with_loc(node, ast.Constant(value=-v))
             case _:
                 return self.generic_visit(node)
 
